@@ -44,6 +44,7 @@ type Engine struct {
 	overlay  map[string][]byte
 	repoDir  string
 
+	words       map[int][]string
 	redirect    map[string]*ssa.Function // real primitive -> proven-equivalent scalar specification
 	sumNotes    []string
 	lemmaFailed []string
@@ -344,4 +345,34 @@ func (e *Engine) EstablishSummaries(workers int) []*Scenario {
 		}
 	}
 	return scns
+}
+
+var wordFiles = []string{"testdata/words.txt", "testdata/uuid.txt", "testdata/hsk.txt"}
+
+func (e *Engine) word(list, i int) (string, error) {
+	e.mu.Lock()
+	defer e.mu.Unlock()
+	if e.words == nil {
+		e.words = map[int][]string{}
+	}
+	if e.words[list] == nil {
+		b, err := os.ReadFile(filepath.Join(e.repoDir, wordFiles[list]))
+		if err != nil {
+			return "", err
+		}
+		e.words[list] = strings.Split(strings.TrimRight(string(b), "\n"), "\n")
+	}
+	if i < 0 || i >= len(e.words[list]) {
+		return "", fmt.Errorf("line %d out of range", i)
+	}
+	return e.words[list][i], nil
+}
+
+// selfTestScenarios: all-concrete runs over the repository's own test inputs (translator validation).
+func selfTestScenarios() []*Scenario {
+	return []*Scenario{
+		{Harness: "hTraceWords", Params: []int{0, 1000, 120, 37}, Label: "selftest words.txt", MaxSteps: 200_000_000, SelfTest: true},
+		{Harness: "hTraceWords", Params: []int{1, 0, 80, 11}, Label: "selftest uuid.txt", MaxSteps: 200_000_000, SelfTest: true},
+		{Harness: "hTraceWords", Params: []int{2, 0, 100, 3}, Label: "selftest hsk.txt", MaxSteps: 200_000_000, SelfTest: true},
+	}
 }
